@@ -43,7 +43,17 @@ RandB(k, x) == IF k = 0 THEN x
 Bases == << BZero, BOne, BPow2(31), B2p32, BPow2(63), B2p64,
             BDiv(B2p64, BFromInt(2)), BDiv(B2p64, BFromInt(512)), BDiv(B2p64, BPow2(10)), BDiv(B2p64, BPow2(20)),
             BDiv(B2p64, BPow2(30)), BDiv(B2p64, BPow2(40)), BFromInt(4096), BFromInt(999999999),
-            BFromCp(Cp("1234567890123456789012345678901234567890")) >>
+            BFromCp(Cp("1234567890123456789012345678901234567890")),
+            \* beyond 2^64 in every leading-digit band of the 20-digit numbers, and further out: an overflow test
+            \* that compares the wrapped accumulator with the previous one is fooled only in some bands
+            BFromCp(Cp("20000000000000000000")), BFromCp(Cp("30000000000000000000")), BFromCp(Cp("40000000000000000000")),
+            BFromCp(Cp("50000000000000000000")), BFromCp(Cp("60000000000000000000")), BFromCp(Cp("70000000000000000000")),
+            BFromCp(Cp("80000000000000000000")), BFromCp(Cp("90000000000000000000")), BFromCp(Cp("100000000000000000000")),
+            BFromCp(Cp("25000000000000000000")), BFromCp(Cp("45000000000000000000")), BFromCp(Cp("65000000000000000000")),
+            BFromCp(Cp("85000000000000000000")), BPow2(65), BPow2(96), BPow2(128),
+            BMul(B2p32, BFromInt(10)), BAdd(B2p32, BFromInt(420)), BAdd(B2p64, BFromInt(420)),
+            BFromCp(Cp("5000000000")), BFromCp(Cp("7000000000")), BFromCp(Cp("9000000000")), BFromCp(Cp("10000000000")),
+            BPow2(33), BPow2(40), BPow2(48) >>
 NBase == Len(Bases) + NRandom
 \* chain of random values, computed once (constant-level, cached by TLC)
 RECURSIVE RandChain(_, _, _)
